@@ -93,6 +93,16 @@ def c19():
     return S
 
 
+def c19b():
+    """a history that contains the upgrade from 0.4.20: the denom minted and burned afterwards is the one created at instantiation"""
+    S = []
+    for run, tre in ((1, False), (2, True)):
+        S += start(run, treasury="treasury" if tre else "")
+        S += [stake("u1", 100), ack(1), {"m": "migrate_from_0_4_20"}, stake("u1", 50), ack(2), rewards(30), unstake("u1", 60), dt(100), submit(),
+              {"m": "migrate_from_0_4_20"}, stake("u2", 20, mint_to="n:u2")]
+    return S
+
+
 def kf2():
     """KNOWN FINDING KF2 (exhibited by TLC on spec/mc/KF_rechannel.cfg): UpdateConfig changes the IBC channel while
     transfers sent on the previous channel are unresolved. receive_ack / receive_timeout compare the callback's
@@ -112,7 +122,7 @@ def kf2():
     return S
 
 
-SCEN = {"C09": c09, "C18": c18, "C19": c19, "KF2": kf2}
+SCEN = {"C09": c09, "C18": c18, "C19": c19, "C19b": c19b, "KF2": kf2}
 
 if __name__ == "__main__":
     os.makedirs(OUT, exist_ok=True)
